@@ -333,15 +333,22 @@ func (rs *ResourceSubscription) enqueueGetResponse(data []byte, err error) {
 // unregister deletes itself and all its links from
 // the EventSubscription
 func (rs *ResourceSubscription) unregister() {
+	// Only what still refers to this resource subscription is removed. It may
+	// be unregistered a second time, by the late response to a reset get
+	// request, when a new resource subscription has already taken its place.
 	if rs.query == "" {
-		rs.e.base = nil
-	} else {
+		if rs.e.base == rs {
+			rs.e.base = nil
+		}
+	} else if rs.e.queries[rs.query] == rs {
 		delete(rs.e.queries, rs.query)
 	}
 	for _, q := range rs.links {
 		if q == "" {
-			rs.e.base = nil
-		} else {
+			if rs.e.base == rs {
+				rs.e.base = nil
+			}
+		} else if rs.e.links[q] == rs {
 			delete(rs.e.links, q)
 		}
 	}
